@@ -56,6 +56,7 @@ type cacheRun struct {
 	inBatch                  bool
 	asyncVals                map[int]bool // values written through SetAsync
 	syncVals                 map[int]bool // values written by a synchronous Set at a quiescent point
+	stepHeld                 bool         // the drain tokens were held when this step began
 	forceQueue, holding      bool         // this trace routes async batches through the ring (drain tokens held by the harness)
 	dead                     bool
 	hits, misses, capN, expN int64
@@ -254,8 +255,12 @@ func (r *cacheRun) step(w *traceWriter, kind opKind, k int, ttl int64, cost int6
 	watch(fmt.Sprintf("trace %d op %d kind %d key %d", r.tid, r.opi, kind, k))
 	defer unwatch()
 	pol := policyOf(r.conf)
+	r.stepHeld = r.holding
 	fenced := r.holding && (kind == opSync || kind == opClear) // the fence is called while the writes are still queued
-	if r.holding && kind != opSetAsync && !fenced {
+	// a synchronous Delete / Set issued while the batch is still queued must first drain the shard's queue: it is started
+	// while the tokens are held (it blocks on the drain token) and the tokens are released a moment later
+	behind := r.holding && (kind == opDelete || kind == opSet)
+	if r.holding && kind != opSetAsync && !fenced && !behind {
 		r.release()
 	} else if !r.holding {
 		r.waitApplied() // a SetAsync that lost a TryLock to the notifier is queued: let the worker apply it first
@@ -294,6 +299,8 @@ func (r *cacheRun) step(w *traceWriter, kind opKind, k int, ttl int64, cost int6
 		if kind == opSetAsync {
 			code = 11
 			setErr = c.SetAsync(k, newVal, time.Duration(ttl))
+		} else if behind {
+			r.behindQueue(func() { setErr = c.Set(k, newVal, time.Duration(ttl)) })
 		} else {
 			setErr = c.Set(k, newVal, time.Duration(ttl))
 		}
@@ -345,7 +352,11 @@ func (r *cacheRun) step(w *traceWriter, kind opKind, k int, ttl int64, cost int6
 		res.B(getOK)
 		desc = fmt.Sprintf("Exists(%d)=%v", k, getOK)
 	case opDelete:
-		delOK = c.Delete(k)
+		if behind {
+			r.behindQueue(func() { delOK = c.Delete(k) })
+		} else {
+			delOK = c.Delete(k)
+		}
 		op.I(5, int64(k), int64(sh))
 		res.B(delOK)
 		desc = fmt.Sprintf("Delete(%d)=%v", k, delOK)
@@ -456,7 +467,8 @@ func (r *cacheRun) step(w *traceWriter, kind opKind, k int, ttl int64, cost int6
 		opClear: "clear", opCleanup: "cleanup", opAdvance: "advance", opStats: "stats", opSetAsync: "setasync", opSync: "sync", opClose: "close"}[kind])
 	wasBatch := r.inBatch
 	r.inBatch = !q
-	if !q {
+	if !q || behind {
+		// (behind: the reference snapshot `pre` was taken while writes were still queued; bookkeeping only)
 		// inside an async batch: reference bookkeeping only
 		if (kind == opSetAsync || kind == opSet) && setErr == nil {
 			pv0, was0 := pre[k]
@@ -464,6 +476,20 @@ func (r *cacheRun) step(w *traceWriter, kind opKind, k int, ttl int64, cost int6
 		}
 		if kind == opDelete {
 			delete(r.latest, k)
+		}
+		for _, n := range notifs { // only possible for a quiescent `behind` step: keep the ledger and the counters in step
+			r.state[n.v] = 3
+			switch kioshun.RemovalReason(n.r) {
+			case kioshun.RemovedCapacity:
+				r.capN++
+			case kioshun.RemovedExpired:
+				r.expN++
+			}
+		}
+		if q && r.lst == 3 {
+			r.mu.Lock()
+			r.evicted = nil
+			r.mu.Unlock()
 		}
 		return
 	}
@@ -872,6 +898,24 @@ wait:
 	r.m.count("fenced_batches")
 }
 
+// behindQueue starts a synchronous mutation while the harness still holds the drain tokens, gives it a moment to reach
+// (and, in a correct implementation, block on) the token, then releases the tokens and waits for it and for the queue.
+func (r *cacheRun) behindQueue(call func()) {
+	done := make(chan struct{})
+	go func() { call(); close(done) }()
+	select {
+	case <-done: // it did not need the token (e.g. a validation error, a closed cache)
+	case <-time.After(300 * time.Microsecond):
+	}
+	r.holding = false
+	for i := 0; i < r.nsh; i++ {
+		r.c.VerifHoldDrain(i, false)
+	}
+	<-done
+	r.waitApplied()
+	r.m.count("sync_mutations_behind_queue")
+}
+
 // waitApplied waits until every ring is empty and every drain token free: all accepted writes are applied.
 func (r *cacheRun) waitApplied() {
 	t0 := time.Now()
@@ -909,7 +953,7 @@ func (r *cacheRun) costArg(v int) int64 {
 }
 
 func (r *cacheRun) noteWrite(k, v int, ttl int64, wasRes bool, resVal int) {
-	if old, ok := r.latest[k]; ok && r.state[old] == 0 && r.holding {
+	if old, ok := r.latest[k]; ok && r.state[old] == 0 && (r.holding || r.stepHeld) {
 		r.state[old] = 4 // superseded while queued: replaced silently or displaced first, both legitimate
 	} else if ok && r.state[old] == 0 && wasRes && resVal == old {
 		r.state[old] = 1
